@@ -1181,6 +1181,21 @@ def reshape_lockstep(rep: Report, ctx: Ctx, rule: str) -> None:
                        f"[P:self._path_indexes[each({NOT})] for..] Add "
                        f"P:self._merged_path_indexes)) Add [{NEW}])",),
                  any_guard=True)
+    lk = "P:self.logic_node.is_loop_kill_path"
+    e = stores.get(lk)
+    ok = e is not None and e.args[0] == (
+        f"(([{lk}[P:self._path_indexes[each({NOT})]] for..] Add "
+        f"[{lk}[each(P:self._merged_path_indexes)] for..]) Add "
+        "P:self.loop_kill_paths[USub(1):])")
+    rep.ob(rule, "the node's loop-kill flags get the same layout as its "
+           "outgoing logic: [kept] + [finished] + [new node]", ok, fi=cm,
+           node=e.node if e else cm.node,
+           detail=e.args[0][:300] if e else "<not assigned>")
+    e = stores.get(f"{NEW}.is_loop_kill_path")
+    ok = e is not None and e.args[0] == f"([False] Mult len({IDX}))"
+    rep.ob(rule, "the nested node has one (cleared) loop-kill flag per "
+           "merged alternative", ok, fi=cm, node=e.node if e else cm.node,
+           detail=e.args[0][:200] if e else "<not assigned>")
     a_len, m_len = f"len({NOT})", "len(P:self._merged_path_indexes)"
     pi = [e for e in effs if e.kind == "store"
           and e.recv == "P:self._path_indexes"]
